@@ -681,9 +681,23 @@ func c07Wiring(p *Program, r *Report) {
 		return n != nil && n.Obj().Name() == "Scheduler" && n != s.T
 	})
 	okSched := len(schedStop) > 0
+	// a nil guard around the call (`if s.scheduler != nil { s.scheduler.Stop() }`): nothing to stop on the nil edge
+	nilSched := map[edge]bool{}
+	for n := range schedStop {
+		if rc := callRecv(callOf(g.Nodes[n])); rc != nil {
+			if f, _ := fieldLoad(rc); f != nil {
+				for _, ef := range p.edgeFacts(g) {
+					if ef.Field == f && ef.Fact.IsNil && ef.Fact.Op == token.EQL {
+						nilSched[ef.E] = true
+					}
+				}
+			}
+		}
+	}
+	notStopped := g.Reach(g.entry(), schedStop, nilSched)
 	for _, ex := range g.Exits {
 		ret := g.Nodes[ex].(*ssa.Return)
-		if v := retOperand(ret, 0); v != nil && isNilConst(strip(v)) && !g.DominatedByNodes(ex, schedStop) {
+		if v := retOperand(ret, 0); v != nil && isNilConst(strip(v)) && notStopped[ex] {
 			okSched = false
 		}
 	}
